@@ -107,16 +107,15 @@ def switchLoop (env : Env) : List CaseSpec → SwitchAcc → Option SwitchAcc
   | c :: rest, acc =>
     if c.isDefault && acc.default.isSome then none
     else
-      let (res, logic) := loadLogic env c.ref
-      let keys := match logic with
-        | .fn true ks => acc.keys ++ ks.map ("inputs." ++ ·)
-        | .fn false ks => acc.keys ++ ks
-        | _ => acc.keys
+      let ll := loadLogic env c.ref
       switchLoop env rest {
-        resources := acc.resources ++ res.getD []
-        logicMap := dictSet c.case logic acc.logicMap
-        default := if c.isDefault then some logic else acc.default
-        keys := keys }
+        resources := acc.resources ++ ll.1.getD []
+        logicMap := dictSet c.case ll.2 acc.logicMap
+        default := if c.isDefault then some ll.2 else acc.default
+        keys := match ll.2 with
+          | .fn true ks => acc.keys ++ ks.map ("inputs." ++ ·)
+          | .fn false ks => acc.keys ++ ks
+          | _ => acc.keys }
 
 /-- `_load_logic_switch` -/
 def loadLogicSwitch (env : Env) (sw : SwitchSpec) : Except String (Option (List Res) × Logic) :=
